@@ -13,9 +13,11 @@ Ops (one answer line each; strings percent-encoded):
       build                                         -> ma=<0|1> n=<k> eps=<e1;e2;…|-> | err | dead
       req m=<method> url=<url>                      -> sel=<names|-> managed=<0|1|?>   (| no-build)
   L4  mode reload                                   -> ok        (lifetime: a sequence of policy reloads)
-      reload g=<0|1> eps=<M@url;M@url|->            -> ma=<0|1> n=<k> eps=<e1;e2;…|-> | err   (UpdatePoliciesData)
+      reload g=<0|1> eps=<M@url;M@url|->            -> ma=<0|1> n=<k> eps=<e1;e2;…|-> | err | err:manage
+      fail put=<k> del=<j>                          -> ok        (the admin server refuses the next k PUTs / j DELETEs)
       advance ms=<n>                                -> ok        (mock clock; due un-manage jobs fire)
-      managed?                                      -> all=<0|1> n=<k> set=<e1;e2;…|->        (the proxy's map)
+      managed?                                      -> all=<0|1> n=<k> set=<e1;…|-> fma=<0|1> feps=<e1;…|->
+                                                       (the proxy's map; the request of the policies IN FORCE)
 -/
 open LunarVerif LunarVerif.Proto LunarVerif.UrlTree LunarVerif.Regex LunarVerif.C14
 
@@ -99,7 +101,13 @@ def runStep (s : RunSt) (line : String) : RunSt × String :=
         | .ok _ =>
           let cfg := Cfg.policies pols (g == "1")
           let req : Reload.Req := ⟨manageAll cfg, (registered cfg).map ofChars⟩
-          ({ s with rl := Reload.reload s.rmode s.rl req }, fmtBuild cfg)
+          let ok := Reload.reloadOK s.rl req
+          ({ s with rl := Reload.reload s.rmode s.rl req }, if ok then fmtBuild cfg else "err:manage")
+    | _, _ => (s, "bad-op")
+  | "fail" :: ws =>
+    match kvNat ws "put", kvNat ws "del" with
+    | some p, some d =>
+      if s.mode != 3 then (s, "bad-op") else ({ s with rl := { s.rl with failPut := p, failDel := d } }, "ok")
     | _, _ => (s, "bad-op")
   | "advance" :: ws =>
     match kvNat ws "ms" with
@@ -107,7 +115,9 @@ def runStep (s : RunSt) (line : String) : RunSt × String :=
     | none => (s, "bad-op")
   | ["managed?"] =>
     if s.mode != 3 then (s, "bad-op")
-    else (s, s!"all={if s.rl.all then 1 else 0} {fmtSet s.rl.managed}")
+    else
+      let fe := (s.rl.cur.eps.map pctEnc).mergeSort (fun a b => decide (a ≤ b))
+      (s, s!"all={if s.rl.all then 1 else 0} {fmtSet s.rl.managed} fma={if s.rl.cur.ma then 1 else 0} feps={if fe.isEmpty then "-" else String.intercalate ";" fe}")
   | "flow" :: ws =>
     match kv ws "name", kv ws "url", kv ws "methods" with
     | some n, some u, some ms =>
@@ -187,11 +197,11 @@ def judgeStep (s : JudgeSt) (op out : String) : JudgeSt :=
     | _, _, _, _ => { s with bad := some "unparsable-policy" }
   | "reload" :: ws =>
     let ows := words out
+    let _ := ws
+    let h := { s.hist with last := some s.hist.now }
     match kv ows "ma", kv ows "eps" with
-    | some ma, some eps =>
-      let _ := ws
-      { s with hist := { s.hist with reqs := (s.hist.now, ⟨ma == "1", parseSet eps⟩) :: s.hist.reqs } }
-    | _, _ => s                                  -- a rejected configuration changes nothing
+    | some ma, some eps => { s with hist := { h with reqs := (s.hist.now, ⟨ma == "1", parseSet eps⟩) :: h.reqs } }
+    | _, _ => if out == "err" then s else { s with hist := h }   -- rejected config: nothing happened; refused manage request: an attempt
   | "advance" :: ws =>
     match kvNat ws "ms" with
     | some d => if out == "ok" then { s with hist := { s.hist with now := s.hist.now + d } }
@@ -199,20 +209,18 @@ def judgeStep (s : JudgeSt) (op out : String) : JudgeSt :=
     | none => s
   | ["managed?"] =>
     let ows := words out
-    match kv ows "all", kv ows "set" with
-    | some all, some set =>
-      match Reload.observe s.rmode s.hist (all == "1") (parseSet set) with
+    match kv ows "all", kv ows "set", kv ows "fma", kv ows "feps" with
+    | some all, some set, some fma, some feps =>
+      let force : Reload.Req := ⟨fma == "1", parseSet feps⟩
+      match Reload.observe s.rmode s.hist force (all == "1") (parseSet set) with
       | .ok => s
       | .known id =>
         if s.known.isSome then s
-        else
-          let miss := match s.hist.reqs with
-            | (_, r) :: _ => Reload.missing r (all == "1") (parseSet set)
-            | [] => []
-          { s with known := some s!"{id} required-not-managed-after-reload-settled t={s.hist.now} missing={String.intercalate ";" (miss.map pctEnc)}" }
+        else { s with known := some s!"{id} required-not-managed-after-reload-settled t={s.hist.now} missing={String.intercalate ";" ((Reload.missing force (all == "1") (parseSet set)).map pctEnc)}" }
       | .violated why =>
-        if s.worst.isSome then s else { s with worst := some s!"- {why} t={s.hist.now}" }
-    | _, _ => { s with bad := some ("unparsable-output:" ++ pctEnc out) }
+        if s.worst.isSome then s
+        else { s with worst := some s!"- {why} t={s.hist.now} missing={String.intercalate ";" ((Reload.missing force (all == "1") (parseSet set)).map pctEnc)}" }
+    | _, _, _, _ => { s with bad := some ("unparsable-output:" ++ pctEnc out) }
   | "req" :: ws =>
     let ows := words out
     match kv ws "m", kv ws "url", kv ows "sel", kv ows "managed" with
